@@ -89,7 +89,6 @@ def signatures(src: str) -> Set[str]:
 
 AFFECTS = {
     "D1": lambda v: v["prop"] in ("C06", "C10") or (v["prop"] == "C01" and v.get("detector") == "group-size-check"),
-    "D3": lambda v: v["prop"] in ("C01", "C06", "C07", "C08", "C09", "C10"),
     "D4": lambda v: v["prop"] in ("C01", "C06", "C07", "C08", "C09", "C10"),
     "D5": lambda v: v["prop"] in ("C07", "C10") or (v["prop"] == "C01" and v.get("detector") in (
         "is-updatable", "is-deletable", "unprotected-updatable", "unprotected-deletable", "can-close-account", "can-close-asset")),
